@@ -121,3 +121,58 @@ Proof.
   rewrite Er, Er' in Hc. cbn [pcount_l] in Hc.
   destruct (store_node_count fuel f n' ts r E) as [Hlen _]. rewrite Hlen. pose proof (dcount_le_pcount n'). lia.
 Qed.
+
+(** the same for a Delete: at most height + 1 Store events *)
+Theorem delete_then_persist_writes s kind bf (m m' : kmast) k v t fuel f :
+  root_allh s kind m -> (exists h c, m_root _ _ m = LHash h c) ->
+  delete _ _ kcmp bytes_eqb (klayer bf) m k v = (t, Ok m') -> m_height _ _ m' = m_height _ _ m ->
+  forall n', m_root _ _ m' = LPtr n' ->
+  okt (store_node fuel f n') (fun ts _ => length (stored ts) <= m_height _ _ m + 1).
+Proof.
+  intros Ha (h & c & Er) Ei Hh n' Er' ts r E.
+  pose proof (delete_count key val kcmp bytes_eqb (sto s kind) (sto_hered s kind) (sto_flat s kind) (klayer bf) m k v Ha t m' Ei Hh) as Hc.
+  rewrite Er, Er' in Hc. cbn [pcount_l] in Hc.
+  destruct (store_node_count fuel f n' ts r E) as [Hlen _]. rewrite Hlen. pose proof (dcount_le_pcount n'). lia.
+Qed.
+
+(** * batches: any number of Inserts and Deletes between two persists *)
+Inductive wop := WIns (k : key) (v : val) | WDel (k : key) (v : val).
+Definition wstep bf (m : kmast) (o : wop) : M kmast :=
+  match o with
+  | WIns k v => insert _ _ kcmp bytes_eqb (klayer bf) m k v
+  | WDel k v => delete _ _ kcmp bytes_eqb (klayer bf) m k v
+  end.
+(* a run of successful updates none of which changes the height *)
+Inductive chain bf : kmast -> list wop -> kmast -> Prop :=
+| chain_nil m : chain bf m [] m
+| chain_cons m o m1 r m' t : wstep bf m o = (t, Ok m1) -> m_height _ _ m1 = m_height _ _ m -> chain bf m1 r m' -> chain bf m (o :: r) m'.
+
+Lemma chain_count s kind bf (m m' : kmast) ops : root_allh s kind m -> chain bf m ops m' ->
+  root_allh s kind m' /\ m_height _ _ m' = m_height _ _ m /\
+  pcount_l key val (m_root _ _ m') <= Nat.max 1 (pcount_l key val (m_root _ _ m)) + 2 * m_height _ _ m * length ops.
+Proof.
+  intros Ha Hc. induction Hc as [m|m o m1 r m' t Hs Hh Hc IH].
+  - split; [exact Ha|]. split; [reflexivity|]. cbn [length]. lia.
+  - assert (Ha1 : root_allh s kind m1).
+    { destruct o as [k v|k v]; cbn [wstep] in Hs; [exact (insert_allh s kind bf m k v Ha t m1 Hs)|exact (delete_allh s kind bf m k v Ha t m1 Hs)]. }
+    assert (Hc1 : pcount_l key val (m_root _ _ m1) <= Nat.max 1 (pcount_l key val (m_root _ _ m)) + 2 * m_height _ _ m).
+    { destruct o as [k v|k v]; cbn [wstep] in Hs.
+      - exact (insert_count key val kcmp bytes_eqb (sto s kind) (sto_hered s kind) (sto_flat s kind) (klayer bf) m k v Ha t m1 Hs Hh).
+      - pose proof (delete_count key val kcmp bytes_eqb (sto s kind) (sto_hered s kind) (sto_flat s kind) (klayer bf) m k v Ha t m1 Hs Hh). lia. }
+    destruct (IH Ha1) as (Ha' & Hh' & Hc'). split; [exact Ha'|]. split; [lia|]. rewrite Hh in Hc'. cbn [length]. nia.
+Qed.
+
+(** "At most 2*height+2 nodes per modified key": n >= 1 successful Inserts/Deletes, none changing
+    the height, applied to a freshly loaded version, then one persist: at most 1 + 2*height*n Store
+    events, which is within (2*height + 2) * n. *)
+Theorem batch_then_persist_writes s kind bf (m m' : kmast) ops fuel f :
+  root_allh s kind m -> (exists h c, m_root _ _ m = LHash h c) -> chain bf m ops m' ->
+  forall n', m_root _ _ m' = LPtr n' ->
+  okt (store_node fuel f n') (fun ts _ => length (stored ts) <= 1 + 2 * m_height _ _ m * length ops
+                                        /\ (ops <> [] -> length (stored ts) <= (2 * m_height _ _ m + 2) * length ops)).
+Proof.
+  intros Ha (h & c & Er) Hc n' Er' ts r E.
+  destruct (chain_count s kind bf m m' ops Ha Hc) as (_ & _ & Hcnt). rewrite Er, Er' in Hcnt. cbn [pcount_l] in Hcnt.
+  destruct (store_node_count fuel f n' ts r E) as [Hlen _]. rewrite Hlen. pose proof (dcount_le_pcount n') as Hd.
+  split; [lia|]. intros Hne. destruct ops as [|o r0]; [congruence|]. cbn [length] in *. nia.
+Qed.
